@@ -37,7 +37,9 @@ def gen(ctx, module, cfg, label=None, timeout=1500):
         raise common.Infra("reference property failed inside TLC on %s/%s (spec bug, not a code verdict): %s\n%s"
                            % (module, cfg, r.violation, r.out[-3000:]))
     cases = common.tlc_printed_json(r.out)
-    if len(cases) != r.distinct:
+    if "_chain" in cfg:        # only the long histories (EmitFrom) are printed there
+        if not cases: raise common.Infra("no case emitted on %s" % cfg)
+    elif len(cases) != r.distinct:
         raise common.Infra("corpus emission lost cases on %s: %d printed vs %d distinct" % (cfg, len(cases), r.distinct))
     return r, cases
 
@@ -60,8 +62,8 @@ def dns_items(lst, is_q):
         out.append(s)
     return "|".join(out)
 
-def dns_msg_part(ctx, exe, cfgs):
-    results = par([(lambda c=c: gen(ctx, "GenDnsMsg", c)) for c in cfgs])
+def dns_msg_part(ctx, exe, cfgs, G):
+    results = [G[("GenDnsMsg", c)] for c in cfgs]
     seen = set(); nontriv = 0; classes = {}
     for cfg, (r, cases) in zip(cfgs, results):
         ctx.tlc_stats(r, "GenDnsMsg/" + cfg)
@@ -82,6 +84,7 @@ def dns_msg_part(ctx, exe, cfgs):
             rcs = [int(x) for x in f["rcs"].split(",")]; needs = [int(x) for x in f["needs"].split(",")]
             bad = False; accepted_unspec = False
             for j, (o, rc, need) in enumerate(zip(ops, rcs, needs)):
+                if bad: break            # later steps only echo the first divergence
                 fn = OPFN[o["op"]]
                 if o["rc"] == "ok":
                     if rc != 0: ctx.fail("dns:%s:refused-step-that-fits:rc=%d" % (fn, rc), "step %d of %s\n%s" % (j, ln, a), rp); bad = True
@@ -131,8 +134,8 @@ def dns_msg_part(ctx, exe, cfgs):
     if not any(k[1] in ("invalid", "fail") for k in classes): raise common.Infra("vacuous DNS corpus: no invalid name")
     ctx.cov["dns_last_step_classes"] = {"%s/%s" % k: v for k, v in sorted(classes.items())}
 
-def dns_name_part(ctx, exe, cfgs):
-    results = par([(lambda c=c: gen(ctx, "GenDnsName", c)) for c in cfgs])
+def dns_name_part(ctx, exe, cfgs, G):
+    results = [G[("GenDnsName", c)] for c in cfgs]
     n = 0; cls = {}
     for cfg, (r, cases) in zip(cfgs, results):
         ctx.tlc_stats(r, "GenDnsName/" + cfg)
@@ -210,8 +213,8 @@ def rad_steps_ok(ctx, ops, rcs, ln, a, rp, report=True):
             break
     return good, acc
 
-def rad_build_part(ctx, exe, cfgs):
-    results = par([(lambda c=c: gen(ctx, "GenRadius", c)) for c in cfgs])
+def rad_build_part(ctx, exe, cfgs, G):
+    results = [G[("GenRadius", c)] for c in cfgs]
     corpus = []; classes = {}; seen = set(); nontriv = 0
     for cfg, (r, cases) in zip(cfgs, results):
         ctx.tlc_stats(r, "GenRadius/" + cfg)
@@ -315,7 +318,7 @@ def sign_scenarios(ctx, corpus, rng):
     # histories out of the TLC corpus (typed User-Password replaced by the same staged octets through the raw entry point)
     pick = [c for c in corpus if not any(o["rc"] == "unspec" for o in c["ops"]) and len(c["ops"]) > 1]
     rng.shuffle(pick)
-    for c in pick[:(14 if quick else 60)]:
+    for c in pick[:(40 if quick else 200)]:
         staged = next((bytes(x["v"]) for x in c["attrs"] if x["t"] == 2), None)
         ops = [rad_op_token(o, staged) for o in c["ops"]]
         has_ma = any(x["t"] == 80 for x in c["attrs"])
@@ -328,7 +331,7 @@ def sign_scenarios(ctx, corpus, rng):
     rq = reqhdr(1)
     corrupt(["i,2,%d,%s" % (rq[1], hx(rq[4:20])), "a,18,%s" % hx(nz(rng, 2))], 1, rq, s2, "corrupt:Access-Accept+MA")
     corrupt(["i,4,%d,-" % rng.randrange(256), "u,40,00000001", "a,44,%s" % hx(nz(rng, 3))], 0, None, s3, "corrupt:Accounting-Request")
-    if not quick:
+    if True:
         rq = reqhdr(43)
         corrupt(["i,44,%d,%s" % (rq[1], hx(rq[4:20])), "a,80,-", "a,18,6f6b"], 0, rq, nz(rng, 65), "corrupt:CoA-ACK+MA")
         corrupt(["i,1,%d,%s" % (rng.randrange(256), hx(rb(rng, 16))), "w,2,%s" % hx(nz(rng, 5) + bytes(11)), "a,1,6162"], 1, None, nz(rng, 9), "corrupt:Access-Request+password+MA")
@@ -460,14 +463,19 @@ def run(ctx):
     ctx.level = "exploration"
     d = common.scratch()
     exe = common.cc([DRV], d + "/c15", compiler="clang", san="asan", hooks=False)
-    if ctx.quick:
-        dns_msg_part(ctx, exe, ["GenDnsMsg.cfg", "GenDnsMsg_bound.cfg"])
-        dns_name_part(ctx, exe, ["GenDnsName.cfg", "GenDnsName_bound.cfg"])
-        corpus = rad_build_part(ctx, exe, ["GenRadius_rules.cfg", "GenRadius.cfg"])
-    else:
-        dns_msg_part(ctx, exe, ["GenDnsMsg_thorough.cfg", "GenDnsMsg_bound.cfg"])
-        dns_name_part(ctx, exe, ["GenDnsName_thorough.cfg", "GenDnsName_bound.cfg"])
-        corpus = rad_build_part(ctx, exe, ["GenRadius_rules.cfg", "GenRadius_thorough.cfg"])
+    t = "" if ctx.quick else "_thorough"
+    plan = [("GenDnsMsg", ["GenDnsMsg%s.cfg" % t, "GenDnsMsg_bound.cfg", "GenDnsMsg_chain.cfg"]),
+            ("GenDnsName", ["GenDnsName%s.cfg" % t, "GenDnsName_bound.cfg"]),
+            ("GenRadius", ["GenRadius_rules.cfg", "GenRadius%s.cfg" % t])]
+    jobs = [(m, c) for m, cs in plan for c in cs]
+    jobs.sort(key=lambda j: 0 if ("bound" in j[1] or "thorough" in j[1] or "chain" in j[1]) else 1)      # long ones first
+    common.tlc_workspace()
+    G = dict(zip(jobs, par([(lambda j=j: gen(ctx, j[0], j[1])) for j in jobs], n=4)))
+    ctx.log("generators done: %s" % ", ".join("%s=%d" % (c, G[(m, c)][0].distinct) for m, c in jobs))
+    dns_msg_part(ctx, exe, plan[0][1], G)
+    dns_name_part(ctx, exe, plan[1][1], G)
+    corpus = rad_build_part(ctx, exe, plan[2][1], G)
+    ctx.log("builders replayed")
     rad_sign_part(ctx, exe, corpus)
     ctx.cov["rule"] = ("cases are the reachable states of the generator specs (every history of builder steps over the configured "
                        "alphabets until a step is refused) and the lines of the signing trace; non-trivial = history with at least "
